@@ -264,7 +264,7 @@ func factsComposeReply(g string) {
 	if len(params) == 4 {
 		rec("replyCert", "encryptedCertBytes", params[3])
 	}
-	evs := events(fn)
+	evs := rawEvents(fn)
 	i1 := idx(evs, 0, "assign", `^ret := append\(shBytes, ccsBytes\.\.\.\)$`)
 	i2 := idx(evs, 0, "assign", `^ret = append\(ret, encryptedCertBytes\.\.\.\)$`)
 	i3 := idx(evs, 0, "return", `^return ret$`)
